@@ -295,6 +295,13 @@ class Case:
                 rec.update(extra(tn0, tn))
             if name.startswith(("gauge_all_random", "insert_gauge", "gauge_all")):
                 self.illcond = True     # non-unitary random gauges: later rounding is amplified by their condition number
+            if name.startswith(("gauge_all_simple", "gauge_local", "gauge_all", "compress_all")) and rank_deficient_bond(tn0):
+                # simple-update gauges are the (smudged) inverse square roots of the bond's weights: on a bond with an exactly
+                # vanishing weight there is no invertible gauge; the gauged network then pairs entries of size 1e-12 with
+                # inverse gauges of size 1e12 and later passes with absolute thresholds (structure finders, cut-offs) are no
+                # longer exact identities on it. The gauging step itself has just been judged; the trace ends here.
+                self.singular_gauged = getattr(self, "singular_gauged", 0) + 1
+                self.dead = True
             self.tn = tn
         except Exception as ex:  # noqa
             if reject_ok or (type(ex).__name__ == "LinAlgError" and "infs or NaNs" in str(ex)):
@@ -739,6 +746,7 @@ def run(ctx):
     ctx.extra["imprecise_skipped"] = imprecise
     ctx.extra["loud_numerical_refusals"] = sum(getattr(c_, "rejected", 0) for c_ in cases)
     ctx.extra["single_precision_breakdowns_on_singular_bonds"] = sum(getattr(c_, "breakdown", 0) for c_ in cases)
+    ctx.extra["traces_ended_after_simple_gauging_of_a_singular_bond"] = sum(getattr(c_, "singular_gauged", 0) for c_ in cases)
     ctx.sample({"trace": [{k: v for k, v in r_.items() if k not in ("net", "result")} for r_ in recs[:4]]})
     fails = ctx.validate("C04_Trace", "Trace.cfg", recs, name="rewrites", ntraces=ncases, chunk=5000)
     ctx.clauses.update(["Returns", "OnGrid", "ValuePreserved", "OuterSame", "IsoClaimSound", "BondNotLarger", "CanonicalRegion",
